@@ -13,7 +13,7 @@ from .c01 import CL, Elem, _shape
 
 LEVEL = 'other'
 TECHNIQUE = ('static: syntactic ranking function of the seed-growing loop (path-state execution), per-iteration reset rules, '
-             'flag-transfer agreement model <-> generated parser, left-call table of the analysis (interpreted), R-CHAIN')
+             'flag-transfer agreement model <-> generated parser (call dispatch, Rule.ruleinfo and walk_Rule interpreted for every flag combination), left-call table of the analysis (interpreted), R-CHAIN')
 LEVEL_TEXT = ('Decides from the source: the seed loop of recursive_call has a strict ranking function (every back edge passes '
               '`new.newpos > lastpos` and `lastpos = new.newpos`), the seed is stored before the first evaluation, recursion '
               'guards are cleared and the position reset in every iteration, an open-list seed is closed when saved; the '
